@@ -1,4 +1,114 @@
-(** C17 placeholder while the proofs are being written *)
-From GH Require Import Base.Prelude Model.Store Model.StoreConc.
-Theorem C17_placeholder : True. Proof. exact I. Qed.
-Print Assumptions C17_placeholder.
+(** C17 — Concurrent Store use keeps Head monotone and readers never see torn state.
+
+    All Appends are serialised by the [writes] channel into the single flush goroutine;
+    readers (Head, Height, GetByHeight, Get) run between any two of its synchronised steps.
+    [conc_run s q] (Model/StoreConc.v) lists, in order, every state a reader can observe while
+    the queue [q] of batches is drained starting from the state [s]: per batch the micro-states
+      pending.Append | ensureInit | advanceHead | recedeTail | batch.Commit | pending.Reset.
+    [s := run c (st0 b) ops] is the state after ANY history (Props/C04.v: appends, deletes incl.
+    whole-store ones — so also an uninitialised store —, restarts), [q] any queue of batches of
+    chain headers of in-range heights (any order, gaps, repeats).  [observe17 x] is what a
+    reader sees in state [x]: Head(), Height(), and whether GetByHeight(Head().Height()) and
+    Get(Head().Hash()) return that very header.
+
+    History of this property: with the order ensureInit | pending.Append of the original code the
+    first micro-state of the first batch on an uninitialised store was torn
+    (Head() = c 5 but Get(c5.Hash()) = NotFound; witness [conc_run (st0 4) [[c 5]]]); found by this
+    proof, repaired in the code (pending.Append first), and the model follows the repaired order. *)
+From Coq Require Import NArith List Bool.
+From stdpp Require Import gmap.
+From GH Require Import Base.Prelude Model.Store Model.StoreSpec Model.StoreConc Oracle.StoreCase.
+From GH Require Import Proofs.StoreP Proofs.StoreMainP Proofs.StoreC04P Proofs.StoreConcP.
+Import ListNotations.
+Open Scope N_scope.
+
+(** Head().Height() ([head_h], 0 = no head) and Height() never decrease from one observable
+    state to the next ([mono_from p l]: along [p :: l] both are non-decreasing) *)
+Theorem C17_head_and_height_monotone : forall c U, chain_hyps c U -> forall b ops q,
+  Forall (op_ok U) ops -> Forall (Forall (inr U)) q ->
+  let s := run c (st0 b) ops in
+  mono_from s (conc_run s (map (map c) q)).
+Proof. exact @hist_conc_mono. Qed.
+
+(** in every observable state the header returned by Head() is itself retrievable by height and by hash *)
+Theorem C17_never_torn : forall c U, chain_hyps c U -> forall b ops q,
+  Forall (op_ok U) ops -> Forall (Forall (inr U)) q ->
+  let s := run c (st0 b) ops in
+  forall x, In x (conc_run s (map (map c) q)) ->
+  o_head_by_height (observe17 x) = true /\ o_head_by_hash (observe17 x) = true.
+Proof. exact @hist_conc_torn_free. Qed.
+
+(** every header of a batch is readable by height and by hash in every observable state from
+    the first micro-state of its own batch on (hence after its Append was followed by Sync),
+    whatever is appended later *)
+Theorem C17_appended_stays_readable : forall c U, chain_hyps c U -> forall b ops q1 ns q2 n,
+  Forall (op_ok U) ops -> Forall (Forall (inr U)) q1 -> Forall (inr U) ns -> Forall (Forall (inr U)) q2 ->
+  In n ns ->
+  let s := run c (st0 b) ops in
+  forall x, In x (conc_run (seq_run s (map (map c) q1)) (map (map c) (ns :: q2))) ->
+  get_by_height x n = Found (c n) /\ get x (h_id (c n)) = Found (c n).
+Proof. exact @hist_conc_batch_readable. Qed.
+
+(** after all writers finish the Store is what the sequential execution of the same appends
+    produces (for EVERY state [s] and queue [q]) ... *)
+Theorem C17_final_is_sequential : forall q s, last (conc_run s q) s = seq_run s q.
+Proof. exact conc_run_last. Qed.
+
+Theorem C17_run_splits : forall q q' s, conc_run s (q ++ q') = conc_run s q ++ conc_run (seq_run s q) q'.
+Proof. exact conc_run_app. Qed.
+
+(** ... whose every read equals the read of the specification after the same appends ... *)
+Theorem C17_sequential_refines_spec : forall c U, chain_hyps c U -> forall b ops q,
+  Forall (op_ok U) ops -> Forall (Forall (inr U)) q ->
+  let s := run c (st0 b) ops in
+  let x := seq_run s (map (map c) q) in
+  let sp := fold_left spec_append q (run_spec spec0 ops) in
+  headp x = option_map (fun th => c (snd th)) (sHT sp) /\
+  tailp x = option_map (fun th => c (fst th)) (sHT sp) /\
+  hsh x = spec_height sp /\
+  (forall n, get_by_height x n = spec_gbh c sp n) /\
+  (forall n, inr U n -> get x (h_id (c n)) = spec_get c sp n) /\
+  (forall n, inr U n -> has x (h_id (c n)) = bool_decide (n ∈ sS sp)) /\
+  (forall n, has_at x n = spec_has_at sp n) /\
+  (forall from to, get_range x from to = spec_range c sp from to).
+Proof. exact @hist_seq_run_refines. Qed.
+
+(** ... and, once the store is initialised, does not depend on the order in which the channel
+    delivered the batches: every read agrees for every permutation of the queue *)
+Theorem C17_order_independent : forall c U, chain_hyps c U -> forall b ops q q',
+  Forall (op_ok U) ops ->
+  let s := run c (st0 b) ops in
+  headp s <> None -> Permutation q q' -> Forall (Forall (inr U)) q ->
+  let x := seq_run s (map (map c) q) in
+  let y := seq_run s (map (map c) q') in
+  headp x = headp y /\ tailp x = tailp y /\ hsh x = hsh y /\
+  (forall n, get_by_height x n = get_by_height y n) /\
+  (forall n, inr U n -> get x (h_id (c n)) = get y (h_id (c n)) /\ has x (h_id (c n)) = has y (h_id (c n))) /\
+  (forall n, has_at x n = has_at y n) /\
+  (forall from to, get_range x from to = get_range y from to).
+Proof. exact @hist_seq_run_order_independent. Qed.
+
+(** non-vacuity: a fresh store, batch size 2: the observations along [[5]; [7]; [6]] *)
+Example C17_run :
+  let c := simple_chain in
+  map (fun x => (o_head (observe17 x), o_height (observe17 x)))
+      (conc_run (st0 2) (map (map c) [[5]; [7]; [6]])) =
+  [(None, 0); (Some (5, 6), 5); (Some (5, 6), 5); (Some (5, 6), 5);
+   (Some (5, 6), 5); (Some (5, 6), 5); (Some (5, 6), 5); (Some (5, 6), 5); (Some (5, 6), 5); (Some (5, 6), 5);
+   (Some (5, 6), 5); (Some (5, 6), 5); (Some (7, 8), 7); (Some (7, 8), 7)].
+Proof. vm_compute. reflexivity. Qed.
+
+(** uninitialised store is the case where the order matters: first batch decides Tail *)
+Example C17_order_matters_when_uninitialised :
+  let c := simple_chain in
+  option_map h_height (tailp (seq_run (st0 8) (map (map c) [[5]; [7]]))) = Some 5 /\
+  option_map h_height (tailp (seq_run (st0 8) (map (map c) [[7]; [5]]))) = Some 7.
+Proof. vm_compute. split; reflexivity. Qed.
+
+Print Assumptions C17_head_and_height_monotone.
+Print Assumptions C17_never_torn.
+Print Assumptions C17_appended_stays_readable.
+Print Assumptions C17_final_is_sequential.
+Print Assumptions C17_run_splits.
+Print Assumptions C17_sequential_refines_spec.
+Print Assumptions C17_order_independent.
